@@ -4,6 +4,7 @@ import SkimModel.Model.Engine
 import SkimModel.Model.Editor
 import SkimModel.Model.SelCursor
 import SkimModel.Model.Accept
+import SkimModel.Model.Inject
 /-
 End-to-end stream for C05 (and the expect, bind and conditional parts of C19): the REAL `sk` binary is
 driven under a pty (items on stdin, keystrokes on the terminal); its stdout and exit code are judged against
@@ -19,7 +20,9 @@ case:  K|<opts>|<items>|<keys>
   items  comma separated enc texts (lower-case ASCII words: ranking is irrelevant under --no-sort, matching is the
          in-order-subsequence rule of C03)
   keys   space separated key NAMES as the bind and expect options spell them (enc), e.g. enc("ctrl-p"), enc("a"), enc("enter")
-impl:  rc=<n> out=<hex of stdout>
+impl:  rc=<n> out=<hex of stdout> exec=<hex,hex,...|_>     (exec: the commands handed to $SHELL by execute-silent, in order; the
+       stand-in shell tools/logshell.sh records them instead of running them)
+  execute-silent(template) ──C07 `Inject.inject` with the context the Model builds from the live list / selection / query──▶ command
 -/
 namespace SkimModel.Driver.C05Cli
 open SkimModel SkimModel.Driver
@@ -31,6 +34,7 @@ structure S where
   cur      : SelCursor.Cur := {}
   selected : List Nat := []          -- item indices, kept ascending (= (run, index) order within one run)
   multi    : Bool := false
+  execs    : List String := []       -- commands handed to the shell so far (hex), oldest first
   done     : Option (Accept.FinalEv × Keymap.Key) := none
   unsupported : Option String := none
 
@@ -51,6 +55,36 @@ def insertAsc (x : Nat) : List Nat → List Nat
   | y :: ys => if x < y then x :: y :: ys else if x = y then y :: ys else y :: insertAsc x ys
 
 def ctorIs (c : List Char) (n : String) : Bool := c == n.toList
+
+def hexOf (s : String) : String :=
+  let hexd (n : Nat) : Char := if n < 10 then Char.ofNat (48 + n) else Char.ofNat (87 + n)
+  String.ofList (s.toUTF8.toList.flatMap (fun b => [hexd (b.toNat / 16), hexd (b.toNat % 16)]))
+
+/-- does the template refer to items (`depends_on_items`, RE_ITEMS) — for the templates this stream generates: `{}`, `{+}` -/
+def refersToItems (t : List Char) : Bool :=
+  let rec go : List Char → Bool
+    | '{' :: '}' :: _ => true
+    | '{' :: '+' :: '}' :: _ => true
+    | _ :: r => go r
+    | [] => false
+  go t
+
+/-- `Model::act_execute_silent`: the context is built from the live list, selection and query (C07: `{}` the current item,
+    `{n}` its index = the ordinal index of the line in the input, `{+…}` the same for every selected item, or for the current item
+    when none is selected); nothing runs when the template refers to items and there is none -/
+def execSilent (s : S) (tmpl : List Char) : S :=
+  let curItem : Option Nat := s.listed[s.cur.cursor]?
+  if refersToItems tmpl && curItem.isNone then s else
+  let text (i : Nat) : List Char := s.items.getD i []
+  let selIdx : List Nat :=
+    if s.multi && !s.selected.isEmpty then s.selected
+    else match curItem with | some i => [i] | none => []
+  let ctx : Inject.Ctx :=
+    { cur := (curItem.map text).getD [], curIdx := curItem.getD 0,
+      sels := selIdx.map text, idxs := selIdx,
+      query := s.ed.fz.line, cmdQuery := s.ed.cmd.line }
+  let cmd := Inject.inject ctx tmpl
+  { s with execs := s.execs ++ [if cmd.isEmpty then "-" else hexOf (String.ofList cmd)] }
 
 /-- one event reaching the model -/
 partial def handle (key : Keymap.Key) (s : S) (ev : Keymap.Event) : S :=
@@ -104,6 +138,7 @@ partial def handle (key : Keymap.Key) (s : S) (ev : Keymap.Event) : S :=
     if ctorIs c "EvActAccept" then { s with done := some (.accept (a.map String.ofList), key) }
     else { s with unsupported := some (String.ofList c) }
   | .str c a =>
+    if ctorIs c "EvActExecuteSilent" then execSilent s a else
     -- the conditional arms of Model::start: the inner action runs at once, before the rest of the chain
     let env : Keymap.Env := { query := s.ed.fz.line, matched := s.listed.length }
     match Keymap.condStep (.str c a) env with
@@ -112,10 +147,6 @@ partial def handle (key : Keymap.Key) (s : S) (ev : Keymap.Event) : S :=
       if (Generated.Keymap.condTable.find? (fun r => r.1 == c)).isSome then s else { s with unsupported := some (String.ofList c) }
     | .error _ => { s with unsupported := some "panic-in-parse_action_arg" }
   | .inputKey _ => s
-
-def hexOf (s : String) : String :=
-  let hexd (n : Nat) : Char := if n < 10 then Char.ofNat (48 + n) else Char.ofNat (87 + n)
-  String.ofList (s.toUTF8.toList.flatMap (fun b => [hexd (b.toNat / 16), hexd (b.toNat % 16)]))
 
 def answer (case impl : String) : String :=
   match case.splitOn "|" with
@@ -153,7 +184,7 @@ def answer (case impl : String) : String :=
           let b : Accept.BinOpts := { printQuery := has "pq", printCmd := has "pc", expect := expect.isSome }
           let r := Accept.binOutput o b (fun i => String.ofList (s.items.getD i []))
           let out := String.join (r.1.map (· ++ "\n"))
-          let model := s!"rc={r.2} out={hexOf out}"
+          let model := s!"rc={r.2} out={hexOf out} exec={if s.execs.isEmpty then "_" else ",".intercalate s.execs}"
           model ++ "\t" ++ (if impl == model then "ok" else "bad:binary-output-differs-from-accept-model")
   | _ => "error:bad-case\terror"
 
